@@ -228,6 +228,14 @@ func init() {
 	registerRule(&RuleDef{ID: "GEN-ENUM", Min: 1, Doc: "enum alias names only with enum types on", Run: ruleGENENUM})
 	registerRule(&RuleDef{ID: "L-ATOM", Min: 8, Doc: "no value read from a guarded field is used in a later critical section of the same lock (split critical section / check-then-act)", Run: ruleLATOM("client", "cache", "server", "database/inmemory")})
 	add("C05", "L-ATOM")
+	registerRule(&RuleDef{ID: "P-OPT", Min: 0, Doc: "zero tests are not applied to the pointee of an optional value", Run: rulePOPT})
+	add("C09", "P-OPT")
+	add("C10", "P-OPT")
+	registerRule(&RuleDef{ID: "K-FRESH", Min: 2, Doc: "decoders store a newly made container before touching a container field of the destination", Run: ruleKFRESH})
+	add("C12", "K-FRESH")
+	registerRule(&RuleDef{ID: "T-COMMIT", Min: 1, Doc: "the reference index is updated only after the rows were applied successfully", Run: ruleTCOMMIT})
+	add("C04", "T-COMMIT")
+	add("C02", "T-COMMIT")
 	registerRule(&RuleDef{ID: "GEN-TMPL", Min: 6, Doc: "the code the generator's template emits for pointer/slice/map columns: map equality checks key presence, lengths compared first, copies are new values (template specialised per shape, not executed)", Run: ruleGENTMPL})
 	add("C13", "GEN-TMPL")
 	add("C20", "GEN-TMPL")
